@@ -26,23 +26,29 @@ func ZZStub_Node_LoadAllChainsAndGraphTimestamp(node *Node, store storage.Store,
 func zzMintTx(batch uint64, ref crypto.Hash) *common.VersionedTransaction {
 	tx := common.Transaction{Version: common.TxVersionHashSignature, Asset: common.XINAssetId}
 	tx.Inputs = []*common.Input{{Mint: &common.MintData{Group: "UNIVERSAL", Batch: batch, Amount: common.NewInteger(10)}}}
-	k := crypto.Key(zzH())
-	tx.Outputs = []*common.Output{{Type: common.OutputTypeScript, Amount: common.NewInteger(10), Keys: []*crypto.Key{&k}, Mask: crypto.Key(zzH()), Script: common.NewThresholdScript(1)}}
+	k := crypto.Key(zzId(0x31))
+	tx.Outputs = []*common.Output{{Type: common.OutputTypeScript, Amount: common.NewInteger(10), Keys: []*crypto.Key{&k}, Mask: crypto.Key(zzId(0x32)), Script: common.NewThresholdScript(1)}}
 	tx.References = []crypto.Hash{ref}
 	return &common.VersionedTransaction{SignedTransaction: common.SignedTransaction{Transaction: tx}}
 }
 
 func zzOrdinaryTx() *common.VersionedTransaction {
-	tx := common.Transaction{Version: common.TxVersionHashSignature, Asset: zzH()}
+	zzSnapSeq++
+	tx := common.Transaction{Version: common.TxVersionHashSignature, Asset: zzId(0x20)}
 	tx.Inputs = []*common.Input{{Hash: zzH(), Index: 0}}
-	k := crypto.Key(zzH())
-	tx.Outputs = []*common.Output{{Type: common.OutputTypeScript, Amount: common.NewInteger(1), Keys: []*crypto.Key{&k}, Mask: crypto.Key(zzH()), Script: common.NewThresholdScript(1)}}
+	k := crypto.Key(zzId(0x21))
+	tx.Outputs = []*common.Output{{Type: common.OutputTypeScript, Amount: common.NewInteger(1), Keys: []*crypto.Key{&k}, Mask: crypto.Key(zzId(0x22 + zzSnapSeq)), Script: common.NewThresholdScript(1)}}
 	return &common.VersionedTransaction{SignedTransaction: common.SignedTransaction{Transaction: tx}}
 }
 
+var zzSnapSeq byte
+
+// zzSnapOf: node id and references are fixed distinct constants (they play no role in the
+// bookkeeping); timestamp and transactions are the caller's (symbolic) values.
 func zzSnapOf(ts uint64, txs ...crypto.Hash) *common.Snapshot {
-	return &common.Snapshot{Version: common.SnapshotVersionCommonEncoding, NodeId: zzH(), RoundNumber: 1, Timestamp: ts,
-		References: &common.RoundLink{Self: zzH(), External: zzH()}, Transactions: txs}
+	zzSnapSeq++
+	return &common.Snapshot{Version: common.SnapshotVersionCommonEncoding, NodeId: zzId(0x40 + zzSnapSeq), RoundNumber: 1, Timestamp: ts,
+		References: &common.RoundLink{Self: zzId(0x80 + zzSnapSeq), External: zzId(0xc0 + zzSnapSeq)}, Transactions: txs}
 }
 
 // ZZ_C21: the process stops after a consensus-class snapshot S was durably finalized
@@ -63,6 +69,8 @@ func ZZ_C21() {
 	tsS := vr.U64()
 	vr.Assume(tsS > tsP && tsS < 1<<62)
 	S := zzSnapOf(tsS, C.PayloadHash())
+	vr.Assume(S.PayloadHash() != P.PayloadHash()) // no BLAKE3 collision between different snapshots
+	hashes := []crypto.Hash{P.PayloadHash(), S.PayloadHash()}
 	vr.Assert(store.ZZPutTransaction(C) == nil, "setup-C")
 	vr.Assert(store.ZZPutSnapshot(S, 11) == nil, "setup-S")
 	maxLater := 1
@@ -73,7 +81,13 @@ func ZZ_C21() {
 	for i := 0; i < later; i++ {
 		o := zzOrdinaryTx()
 		vr.Assert(store.ZZPutTransaction(o) == nil, "setup-O-tx")
-		vr.Assert(store.ZZPutSnapshot(zzSnapOf(vr.U64(), o.PayloadHash()), uint64(12+i)) == nil, "setup-O")
+		os := zzSnapOf(vr.U64(), o.PayloadHash())
+		for _, h := range hashes {
+			vr.Assume(os.PayloadHash() != h)
+		}
+		hashes = append(hashes, os.PayloadHash())
+		vr.Assume(o.PayloadHash() != C.PayloadHash())
+		vr.Assert(store.ZZPutSnapshot(os, uint64(12+i)) == nil, "setup-O")
 	}
 	bookkeepingDone := vr.Bool() // the cut may also fall after WriteConsensusSnapshot(S)
 	if bookkeepingDone {
@@ -81,6 +95,9 @@ func ZZ_C21() {
 	}
 	if later > 0 && !bookkeepingDone {
 		vr.Cover("kf:stopped-before-bookkeeping-with-later-snapshots")
+	}
+	if later == 0 && !bookkeepingDone {
+		vr.Cover("repair-needed-and-last-snapshot-is-S")
 	}
 	// restart
 	node, err := SetupNode(&config.Custom{}, store, nil, nil)
